@@ -749,6 +749,24 @@ def _collect(e, c, a):
         for v in vals:
             if not any(e.branch(e.eq_vals(x, v)) for x in s.e): s.e.append(v)
         return s
+    if target == 'BTreeSet':
+        s = SetObj()
+        for v in vals:
+            if not any(e.branch(e.eq_vals(x, v)) for x in s.e): s.e.append(v)
+        ks = [ckey(x) for x in s.e]
+        if any(k is None for k in ks): raise Unsupported('BTreeSet with symbolic keys')
+        s.e[:] = [x for _, x in sorted(zip(ks, s.e), key=lambda p: p[0])]
+        return s
+    if target == 'String':
+        out = []
+        for v in vals:
+            v = unguard(v)
+            if isinstance(v, StrBuf): v = v.s
+            if isinstance(v, str): out.append(v)
+            elif isinstance(v, int): out.append(chr(v))
+            elif hasattr(v, 'bytes') and not any(is_sym(b) for b in v.bytes()): out.append(bytes(v.bytes()).decode())
+            else: raise Unsupported('collect::<String> of %r' % (v,))
+        return StrBuf(''.join(out))
     if target == 'Vec': return VecObj(vals)
     if target == 'HashMap':
         mo = MapObj()
@@ -824,7 +842,7 @@ def _ri_start(e, c, a): return Ref(deref(a[0]).f, 0)
 def _ri_end(e, c, a): return Ref(deref(a[0]).f, 1)
 @model('mem::drop')
 def _mem_drop(e, c, a): e.drop_value(a[0]); return UNIT
-@model('Box::drop')
+@model('<Box as Drop>::drop', 'Box::drop')
 def _box_drop(e, c, a):
     # <Box<T> as Drop>::drop after the content was moved out (box deref move): frees the allocation only
     return UNIT
